@@ -7,7 +7,7 @@ on terms, never on source text or positions.
 """
 from __future__ import annotations
 
-from typing import Any, Callable, Dict, Iterator, Optional, Tuple
+from typing import Any, Callable, Dict, Iterator, List, Optional, Tuple
 
 Term = Tuple[Any, ...]
 
@@ -300,3 +300,84 @@ def show_guard(g: Term) -> str:
 def guard_term(g: Term) -> Term:
     """The condition a guard asserts, as a (negation-normalised) term."""
     return strip(g[1]) if g[2] else negate(g[1])
+
+
+# ----------------------------------------------------------------------------- comprehension fusion
+def _bind_pattern(pat: Term, val: Term) -> Optional[Dict[Term, Term]]:
+    """Substitution that binds an iteration pattern to a value (None if the shapes do not match)."""
+    pat = strip(pat)
+    if pat[0] == "var":
+        return {pat: val}
+    v = strip(val)
+    if pat[0] == "tuple" and v[0] == "tuple" and len(pat[1]) == len(v[1]):
+        out: Dict[Term, Term] = {}
+        for p, x in zip(pat[1], v[1]):
+            b = _bind_pattern(p, x)
+            if b is None:
+                return None
+            out.update(b)
+        return out
+    return None
+
+
+def _plain_bag(t: Any) -> Optional[Term]:
+    t = strip(t)
+    if is_term(t) and t[0] == "bag" and len(t) >= 2 and all(is_term(e) and e[0] == "elem" for e in t[1]):
+        return t
+    if is_term(t) and t[0] == "tuple" and len(t) == 2 and isinstance(t[1], tuple) and t[1] and not any(is_term(x) and x[0] == "star" for x in t[1]):
+        return ("bag", tuple(("elem", x, (), ()) for x in t[1]), "tuple")      # a tuple display that is iterated over
+    return None
+
+
+def fuse_elem(el: Term) -> List[Term]:
+    """One comprehension element whose iteration source is itself a collection built from guarded /
+    iterated elements -> the elements of the fused comprehension (`f(y) for y in [g(x) for x in X if c]`
+    is `f(g(x)) for x in X if c`); `*collection` elements are flattened the same way."""
+    _, val, guards, iters = el
+    for k, it in enumerate(iters):
+        if not (is_term(it) and it[0] == "it") or len(it) < 3:
+            continue
+        src = _plain_bag(it[2])
+        if src is None or not src[1]:
+            continue
+        out: List[Term] = []
+        ok = True
+        for inner in src[1]:
+            iv = strip(inner[1])
+            if is_term(iv) and iv[0] == "star":
+                # the collection contains `*S`: iterating over that part is iterating over S
+                new = ("elem", val, tuple(inner[2]) + tuple(guards), tuple(iters[:k]) + tuple(inner[3]) + (("it", it[1], iv[1]),) + tuple(iters[k + 1:]))
+                out += fuse_elem(new)
+                continue
+            b = _bind_pattern(it[1], inner[1])
+            if b is None:
+                ok = False
+                break
+            rest = replace(tuple(iters[k + 1:]), b)
+            new = ("elem", replace(val, b), tuple(inner[2]) + tuple(replace(tuple(guards), b)), tuple(iters[:k]) + tuple(inner[3]) + tuple(rest))
+            out += fuse_elem(new)
+        if ok:
+            return out
+    sv = strip(val)
+    if is_term(sv) and sv[0] == "star":
+        src = _plain_bag(sv[1])
+        if src is not None:
+            out = []
+            for inner in src[1]:
+                out += fuse_elem(("elem", inner[1], tuple(guards) + tuple(inner[2]), tuple(iters) + tuple(inner[3])))
+            return out
+    return [el]
+
+
+def fuse(t: Any) -> Any:
+    """Comprehension fusion everywhere inside a term."""
+    if not isinstance(t, tuple) or not t:
+        return t
+    t = tuple(fuse(x) for x in t)
+    if is_term(t) and t[0] == "bag" and len(t) >= 2 and isinstance(t[1], tuple) and all(is_term(e) and e[0] == "elem" and len(e) == 4 for e in t[1]):
+        elems: List[Term] = []
+        for e in t[1]:
+            elems += fuse_elem(e)
+        if tuple(elems) != t[1]:
+            return (t[0], tuple(elems)) + t[2:]
+    return t
